@@ -126,3 +126,10 @@ Lemma C17_flat_add_never_reuses_an_id_l :
   flat_ok st' = true /\
   (fl_recs st' = fl_recs st \/ fl_recs st' = fl_recs st ++ [(fl_next st, s)]).
 Proof. exact flat_add_crash_safe. Qed.
+
+Lemma C17_flat_set_refuted_l :
+  exists (st : flat) id s k,
+  ids_unique (fl_recs st) = true /\ count_id id (fl_recs st) <> 0%nat /\
+  let st' := fapply2 (firstn k (set_effects st id s)) st in
+  ~ (fl_recs st' = fl_recs st \/ fl_recs st' = set_recs st id s).
+Proof. exists (Flat 3 [(1, [97]); (2, [98])]), 1%N, [99%N], 1%nat. exact flat_set_refuted. Qed.
